@@ -1,4 +1,5 @@
 From Coq Require Import Extraction ExtrOcamlBasic.
-From PV Require Import Lib.ExtractBase Model.Provider Model.Preload.
+From PV Require Import Lib.ExtractBase Model.Provider Model.Preload Model.PreloadContent.
 Extraction Language OCaml.
-Extraction "extracted/C14_model.ml" xb_types deliver chosen_entries bound cyc_prefix ids spec14_b constructor_refuses.
+Extraction "extracted/C14_model.ml" xb_types deliver chosen_entries bound cyc_prefix ids spec14_b constructor_refuses
+  deliver_c file_entries chosen_content view_of spec14c_b.
